@@ -385,6 +385,8 @@ pub struct Report {
     pub evaluations: u64,
     pub cells: BTreeSet<String>,
     pub violations: Vec<Violation>,
+    /// witness size per entry of `violations`
+    pub weights: Vec<usize>,
     pub violation_counts: BTreeMap<String, u64>,
     pub inconclusive: Vec<String>,
     pub samples: Vec<String>,
@@ -402,17 +404,25 @@ impl Report {
     /// Record a violation; one witness is kept per signature (the one with
     /// the shortest replay string), occurrences are counted.
     pub fn violation(&mut self, sig: impl Into<String>, detail: impl Into<String>, replay: impl Into<String>) {
+        let replay = replay.into();
+        let w = replay.len();
+        self.violation_w(sig, detail, replay, w);
+    }
+    /// Same, with an explicit witness size (smaller wins).
+    pub fn violation_w(&mut self, sig: impl Into<String>, detail: impl Into<String>, replay: impl Into<String>, weight: usize) {
         let sig = sig.into();
         let detail = detail.into();
         let replay = replay.into();
         *self.violation_counts.entry(sig.clone()).or_insert(0) += 1;
-        if let Some(v) = self.violations.iter_mut().find(|v| v.sig == sig) {
-            if replay.len() < v.replay.len() {
-                v.detail = detail;
-                v.replay = replay;
+        if let Some(i) = self.violations.iter().position(|v| v.sig == sig) {
+            if weight < self.weights[i] {
+                self.violations[i].detail = detail;
+                self.violations[i].replay = replay;
+                self.weights[i] = weight;
             }
         } else {
             self.violations.push(Violation { sig, detail, replay });
+            self.weights.push(weight);
         }
     }
     pub fn inconclusive(&mut self, s: impl Into<String>) {
